@@ -293,6 +293,16 @@ def c11(res, tier, seed):
                 for a in "ae":
                     plans.append([(k, a)])
             scans = [scan(f, data, sizes, flags=flags, plan=p) for p in plans]
+            if si % 2 == 0:
+                # the protocol of a scan does not depend on how the previous call on the scanner ended: in every other execution a
+                # scan through the block iterator is suspended (not-ready) and abandoned before some of the planned scans
+                f2, data2, sizes2 = random_file(r, 1000 + si, 2, nblocks=2)
+                mixed = []
+                for sc_ in scans:
+                    if r.random() < 0.4:
+                        mixed.append(scan(f2, data2, sizes2, flags=flags, mode="blocks", nr=[r.randint(0, len(sizes2))], maxcalls=1))
+                    mixed.append(sc_)
+                scans = mixed
             execs.append({"rules": rules, "scans": scans, "kind": "c11-plans", "extra_imports": ["tests"] if si % 3 == 0 else []})
     run_chunks(res, "C11", execs, "asan", "c11")
     res.cov["rule"] = ("random rule sets (1-9 rules, every 8th 66-80 rules; 1-14 namespaces; global/private/global+private; "
